@@ -250,18 +250,16 @@ struct Runner {
         // edges(): every edge once per copy, one orientation per undirected pair
         GS_OBS("edges()", STRUCT, {
             std::vector<Key> got;
-            bool orient = true;
             for (auto e : gr.edges()) {
-                got.push_back(Key(e.first, e.second));
+                // which orientation an undirected edge is reported in is not promised: compared as an unordered pair
+                got.push_back(mo.key(e.first, e.second));
                 raw.u64(e.first); raw.u64(e.second);
-                if (!directed && e.first > e.second) orient = false;
             }
             std::sort(got.begin(), got.end());
             std::vector<Key> want;
             for (auto &kv : mo.e) want.insert(want.end(), (size_t)kv.second.copies, kv.first);
             dg.u64(got.size());
             for (auto &k : got) { dg.u64(k.first); dg.u64(k.second); }
-            if (!orient) mismatch(STRUCT, "edges()_orientation", "undirected edge reported with first > second");
             if (got != want) mismatch(STRUCT, "edges()", "got " + std::to_string(got.size()) + " want " + std::to_string(want.size()) + " (or different pairs)");
         })
         // adjacency matrix
